@@ -343,7 +343,36 @@ pub broadcast proof fn lemma_alt_lang_perm_b(s: Seq<Expression>, t: Seq<Expressi
     requires #[trigger] s.to_multiset() == #[trigger] t.to_multiset()
     ensures alt_lang(s) == alt_lang(t)
 { lemma_alt_lang_perm(s, t); }
-pub uninterp spec fn charset_spec(e: Expression) -> Set<char>;
+// ---- single-code-point operands (union merges them into a character class)
+pub uninterp spec fn joined_chars(chars: Seq<String>) -> Seq<char>;        // Grapheme::value(): the concatenation of its strings
+pub uninterp spec fn cc_spec(c: GraphemeCluster, escaped: bool) -> nat;    // GraphemeCluster::char_count
+pub open spec fn charset_spec(e: Expression) -> Set<char> {
+    match e {
+        Expression::Literal(c, _, _) => if c.graphemes@.len() > 0 && joined_chars(c.graphemes@[0].chars@).len() > 0 { set![joined_chars(c.graphemes@[0].chars@)[0]] } else { Set::empty() },
+        Expression::CharacterClass(cs, _) => cs@,
+        _ => Set::empty(),
+    }
+}
+pub open spec fn single_cp_spec(e: Expression) -> bool {
+    match e {
+        Expression::CharacterClass(_, _) => true,
+        Expression::Literal(c, esc, _) => cc_spec(c, esc) == 1 && c.graphemes@.len() > 0 && c.graphemes@[0].max == 1,
+        _ => false,
+    }
+}
+// assumed of GraphemeCluster::char_count (a sum over the graphemes of the number of code points of their texts): a count of one needs a first grapheme with a non-empty text
+pub broadcast axiom fn axiom_char_count_one(c: GraphemeCluster, escaped: bool)
+    requires #[trigger] cc_spec(c, escaped) == 1
+    ensures c.graphemes@.len() > 0, joined_chars(c.graphemes@[0].chars@).len() > 0;
+pub broadcast proof fn lemma_lang_class(e: Expression)
+    requires e is CharacterClass
+    ensures #[trigger] lang(e) == class_lang(e->CharacterClass_0@)
+{}
+// THE semantic assumption about trie symbols that the class merge of `union` rests on: a literal that consists of exactly one code point
+// (one grapheme, one character, not repeated) denotes exactly the one-character word of that code point.  (`glang` is uninterpreted.)
+pub broadcast axiom fn axiom_single_code_point_literal(e: Expression)
+    requires e is Literal, #[trigger] single_cp_spec(e)
+    ensures lang(e) == class_lang(charset_spec(e));
 
 pub proof fn lemma_alt_lang_empty()
     ensures alt_lang(Seq::<Expression>::empty()) == ISet::<Word>::empty()
